@@ -119,9 +119,16 @@ class ZipReader(AbstractReader):
             if (member.filename.endswith('.zip') or
                     member.filename.endswith('.ZIP')):
 
-                innerZipBlob = archive.read(member.filename)
+                try:
+                    innerZipBlob = archive.read(member.filename)
 
-                innerMembers = self._readZipDirectory(FileLike(innerZipBlob, member.filename))
+                    innerMembers = self._readZipDirectory(FileLike(innerZipBlob, member.filename))
+
+                except Exception:
+                    # a broken inner archive must not hide everything else
+                    debug.logger & debug.flagReader and debug.logger(
+                        'inner ZIP %s read failure: %s' % (member.filename, sys.exc_info()[1]))
+                    continue
 
                 for innerFilename, ref in innerMembers.items():
 
